@@ -2,7 +2,7 @@ HOOKS = {
     "guard": "vm_memory_verif",
     "enable": "RUSTFLAGS=\"--cfg vm_memory_verif\" (set for the harness by /verif/harness/.cargo/config.toml)",
     "baseline_off_cmd": "cd /repo && cargo test --workspace --no-fail-fast --offline",
-    "source_commits": ["be3842d verif hook H1: copy trace", "9dbbbb5 verif hook H2: AtomicU64 stand-in", "d7a8125 + 941d4a8 verif hook H3: emulated Xen ioctls"],
+    "source_commits": ["be3842d verif hook H1: copy trace", "9dbbbb5 verif hook H2: AtomicU64 stand-in", "d7a8125 + 941d4a8 + 52e524e verif hook H3: emulated Xen ioctls (failure injection, query/disarm)"],
     "add_only": True,
 }
 NOT_YET = {}
